@@ -26,7 +26,8 @@ let hex_of_bytes (bs : z list) : string =
   match bs with
   | [] -> "-"
   | _ -> let b = Buffer.create (2 * List.length bs) in
-         List.iter (fun x -> Buffer.add_string b (Printf.sprintf "%02x" (iz x))) bs;
+         List.iter (fun x -> let v = iz x in
+                             Buffer.add_string b (if v < 0 then "??" else Printf.sprintf "%02x" v)) bs;
          Buffer.contents b
 let hexname (bs : z list) : string =
   match bs with [] -> "-" | _ -> hex_of_bytes bs
@@ -180,6 +181,7 @@ let () =
       | "env" :: kv :: _ ->
           (match String.split_on_char '=' kv with
            | ["PNETCDF_VERIF_MOVE_UNIT"; v] -> w := set_move_unit !w (zs v)
+           | ["PNETCDF_RELAX_COORD_BOUND"; v] -> w := set_strict !w (v = "0")
            | _ -> ())
       | ["{"] -> in_group := true; group := []
       | ["}"] ->
@@ -191,7 +193,10 @@ let () =
             match List.nth_opt g (iz r) with
             | Some (ln, _, nm) -> emit ln nm ob
             | None -> ()) out
-      | who :: rest ->
+      | who0 :: rest0 ->
+          let is_who = who0 = "*" || (match int_of_string_opt who0 with Some _ -> true | None -> false) in
+          let who = if is_who then who0 else "*" in
+          let rest = if is_who then rest0 else toks in
           let o = (try parse_op rest with _ -> OUnknown) in
           if !in_group then group := (lineno, o, opname rest) :: !group
           else begin
